@@ -983,6 +983,18 @@ def resolve_payloads(body, e, rounds=4):
     return e
 
 
+def err_exit_blocks(body):
+    """Blocks through which a fallible function leaves with an error: the `?` residual conversions and the explicit
+    `return Err(..)` (an assignment of `Err(..)` to the return place)."""
+    out = [bi for bi, t in body.calls() if callee_matches(body.callee_of(t), "FromResidual::from_residual")]
+    for bi in body.live_blocks():
+        for st in body.blocks[bi]["stmts"]:
+            if st["k"] == "assign" and st["pl"]["l"] == 0 and not st["pl"]["p"] and st["rv"]["k"] == "agg" and st["rv"].get("ak") == "adt" \
+                    and st["rv"].get("variant") == "Err" and str(st["rv"].get("adt", "")).endswith("result::Result"):
+                out.append(bi)
+    return out
+
+
 def whole_drain(e):
     """`Vec::drain(v, ..)` / `VecDeque::drain(v, ..)` over the full range."""
     return (is_call(e, "Vec::drain") or is_call(e, "VecDeque::drain") or is_call(e, "drain")) and len(e[2]) == 2 and e[2][1][0] == "agg" and str(e[2][1][2]).endswith("RangeFull")
